@@ -33,9 +33,12 @@
 (*    into blocks and, for a separable integrand p(x) q(y), the product of the two    *)
 (*    1-d sums (TensorSum laws, checked by TLC on rational rules); a grid of millions *)
 (*    of points is judged through the exact product of moments (ScaleFailing).        *)
-(* 8. Threads: calls on one module-level function / one shared object from several    *)
-(*    threads, interleaved at the calls' atomic steps, each return the sequential     *)
-(*    answer (ThrSucc).                                                               *)
+(* 8. Threads: the module-level functions are pure functions of their arguments, and  *)
+(*    objects owned by different threads share nothing: calls from several threads,   *)
+(*    interleaved at the calls' atomic steps, each return the sequential answer       *)
+(*    (ThrSucc).  One shared QGauss object is covered for read-only use only (no call *)
+(*    changes its point count); concurrent calls that change the point count of one   *)
+(*    shared object are outside the statement.                                        *)
 EXTENDS VU
 
 QNone == 0                      \* Python None for an npts argument
@@ -354,14 +357,16 @@ ScaleFailing(r) ==
 (* A thread history: events [op |-> "start", t, kind, arg] (thread t begins a call), [op |-> "finish", t,  *)
 (* err, ok] (its call returns; ok = the point counts e for which the result is the one a fresh QGauss(e)  *)
 (* returns sequentially).  Calls of different threads overlap arbitrarily.  Every call with an explicit   *)
-(* npts returns that rule's sum whatever the other threads do; with npts omitted (shared object) the      *)
-(* count is the constructor's or one that a call begun before its return made current.                    *)
+(* npts returns that rule's sum whatever the other threads do.  With npts omitted the count is the        *)
+(* constructor's; on a SHARED object also one that a call begun before its return made current (the       *)
+(* histories replayed never change the count of a shared object, so this is the constructor's again).     *)
+(* shared = FALSE: module-level function, or one object per thread (all built with ctor).                 *)
 ThrIdle == 0 - 1
-ThrNew(ctor) == [ctor |-> ctor, args |-> {}, open |-> [t \in 1..4 |-> ThrIdle]]
+ThrNew(ctor, shared) == [ctor |-> ctor, shared |-> shared, args |-> {}, open |-> [t \in 1..4 |-> ThrIdle]]
 ThrAllowed(s, a) == IF a # QNone THEN {a} ELSE ({s.ctor} \cup s.args) \ {QNone}
 ThrSucc(s, ev) ==
     IF ev.op = "start" THEN (IF s.open[ev.t] # ThrIdle THEN {}
-                             ELSE {[s EXCEPT !.open[ev.t] = ev.arg, !.args = @ \cup ({ev.arg} \ {QNone})]})
+                             ELSE {[s EXCEPT !.open[ev.t] = ev.arg, !.args = IF s.shared THEN @ \cup ({ev.arg} \ {QNone}) ELSE @]})
     ELSE LET a == s.open[ev.t] IN
          IF a = ThrIdle THEN {}
          ELSE IF ThrAllowed(s, a) = {} \/ (ev.err = "none" /\ ThrAllowed(s, a) \cap VRange(ev.ok) # {})
@@ -370,11 +375,12 @@ ThrClause(s, ev) ==
     IF ev.op = "start" \/ s.open[ev.t] = ThrIdle THEN "malformed_trace"
     ELSE IF ev.err # "none" THEN "unexpected_error" ELSE "not_the_sequential_result"
 
-(* implementation-shaped model: m = [npts, rulefor] is the state of the object the calls share; a call is *)
-(* two atomic steps, configure (setup) and use.  variants:                                                *)
-(*   "private"  every call builds its own object (module-level qgauss())                                  *)
-(*   "snap"     shared object, setup() hands the rule of the call back in one piece                       *)
-(*   "late"     shared object, the rule is read from the object again after setup() returned              *)
+(* implementation-shaped model: m = [npts, rulefor] is the state of an object several calls share; a call  *)
+(* is two atomic steps, configure (setup) and use.  variants:                                             *)
+(*   "private"  every call / every thread works on its own object (qgauss() as it is; one object per      *)
+(*              thread)                                                                                   *)
+(*   "snap"     one object behind all calls, setup() hands the rule of the call back in one piece         *)
+(*   "late"     one object behind all calls, the rule is read from it again after setup() returned        *)
 ThrMechStart(m, arg, variant) == IF variant = "private" THEN m ELSE MechSetup(m, arg, "pinned")
 ThrMechTaken(m, arg, variant) == IF variant = "private" THEN arg ELSE MechSetup(m, arg, "pinned").rulefor   \* rule in hand after configure
 ThrMechUsed(m, taken, variant) == IF variant = "late" THEN m.rulefor ELSE taken
